@@ -13,6 +13,17 @@ def ok_value(case, impl):
 
 
 PROPS = {
+    "C07": {
+        "topics": ["enc"],
+        "nontrivial": lambda c, i: i.startswith("ok x") and len(i) > 6,
+        "rule": "encode/decode cases for all 9 encoders: every single byte value, all strings up to length 3 (thorough: 4) over a "
+                "6-letter alphabet (5 in-domain letters + 1 outside), random in-domain strings up to 2000 units decoded with every "
+                "length -1..len+2 and trailing bytes, corrupted and truncated encodings, adversarial lengths (2^31, 2^40, 2^63-1, negative), "
+                "all 1-4 byte BER tag shapes; non-trivial = distinct case on which the implementation returns a non-empty value",
+        "trusted_base": COMMON_TB + ["translator: Gen/EbcdicTables.v is an exhaustive dump (all 256 inputs) of EBCDIC/EBCDIC1047 Encode and Decode from the live library",
+                                     "modelled, validated by correspondence: yerden/go-util/bcd Standard codec, encoding/hex, x/text charmap CP1047 (UTF-8 input, Latin-1 repertoire)"],
+        "assumptions": ["EBCDIC1047 text domain inside fields is ASCII (the encoder treats its input as UTF-8)"],
+    },
     "C20": {
         "topics": ["pad"],
         "nontrivial": lambda c, i: ok_value(c, i) and (c.startswith("(unpad") or " x " not in c),
